@@ -345,6 +345,9 @@ def _explore(prop, a, t_start):
         _write_evidence(prop, a, agg, wall, len(new), known_hits, missing, reported)
     print('%s: %d runs in %.1fs (%.0f runs/h), %d distinct non-trivial, %d new violation classes, %d known-finding classes' % (
         prop.ID, agg['runs'], wall, agg['runs'] / max(wall, 1e-9) * 3600, len(agg['nontrivial']), len(new), len(known_hits)))
+    if new:
+        idxs = sorted(x['i'] for x in agg['viol'] if x['i'] >= 0 and match_finding(findings, prop.ID, x['v']) is None)
+        print('%s: %d violating runs seen, the first at run index %s' % (prop.ID, len(idxs), idxs[0] if idxs else 'regression case'))
     if harness_error is not None:
         print('HARNESS-ERROR property=%s %s' % (prop.ID, harness_error))
         return 2
